@@ -46,7 +46,7 @@ class Contract:
     def __init__(self, target, params=None, requires=(), ensures=(), raises=None, loops=None, handlers=None, globals=None,
                  local_sorts=None, props=(), assumptions=(), note='', cut=None, max_paths=4000, replay=None,
                  on_outcomes=None, comprehensions=None, ghost_init=None, store_handler=None, truthy_handlers=None,
-                 raise_order_free=False, havoc=None, registry_ext=None):
+                 raise_order_free=False, havoc=None, registry_ext=None, expr_hooks=None, ignore_unknown_exceptions=False):
         self.target = target
         self.params = dict(params or {})
         self.requires = list(requires)
@@ -69,6 +69,8 @@ class Contract:
         self.truthy_handlers = dict(truthy_handlers or {})
         self.havoc = havoc
         self.registry_ext = dict(registry_ext or {})
+        self.expr_hooks = dict(expr_hooks or {})
+        self.ignore_unknown_exceptions = ignore_unknown_exceptions
 
     @property
     def name(self):
@@ -91,11 +93,11 @@ class Contract:
 
 
 class Obligation:
-    __slots__ = ('fn', 'clause', 'kind', 'pc', 'claim', 'exact', 'result', 'backend', 'ms', 'model', 'detail', 'path')
+    __slots__ = ('fn', 'clause', 'kind', 'pc', 'claim', 'exact', 'result', 'backend', 'ms', 'model', 'detail', 'path', 'z3model')
 
     def __init__(s, fn, clause, kind, pc, claim, exact, path=None):
         s.fn, s.clause, s.kind, s.pc, s.claim, s.exact, s.path = fn, clause, kind, pc, claim, exact, path
-        s.result = None; s.backend = None; s.ms = 0.0; s.model = None; s.detail = ''
+        s.result = None; s.backend = None; s.ms = 0.0; s.model = None; s.detail = ''; s.z3model = None
 
     @property
     def name(s):
@@ -142,7 +144,7 @@ def discharge(ob, model_vars=None, use_external=True):
     if r == z3.unsat: ob.result = 'discharged'
     elif r == z3.sat:
         ob.result = 'failed' if ob.exact else 'undecided'
-        m = so.model()
+        m = so.model(); ob.z3model = m
         if model_vars:
             ob.model = {}
             for k, v in model_vars.items():
@@ -245,6 +247,8 @@ def verify(contract, registry, src_root='/repo'):
                     obs.append(Obligation(contract.name, f'raises:{exn}:must-raise-when-condition-holds', 'raises', p.pc, z3.Not(cond(x.params)), p.exact, i))
         elif kind == 'raise':
             allowed = [exn for exn in contract.raises if v.name != '<any>' and E.is_subexc(v.name, exn)]
+            if v.name == '<any>' and contract.ignore_unknown_exceptions:
+                continue          # exceptions of unmodelled callees are outside this (slice) contract; listed as unmodelled_callees
             if not allowed:
                 exact = p.exact and v.exact and v.name != '<any>'
                 obs.append(Obligation(contract.name, f'raises:only-listed-exceptions-escape ({v.name} at {v.site})', 'escape', p.pc, z3.BoolVal(False), exact, i))
